@@ -26,7 +26,21 @@ def impl(case):
         return {"w": [[int(x) for x in get_pauli_weights(n, pos)] for n, pos in case["items"]]}
     n = case["n"]
     A = np.array([[complex(a, b) for a, b in row] for row in case["matrix"]], dtype=complex)
-    w = matrix_decomposition(A.copy())
+    # the same matrix in different memory layouts / dtypes: a matrix is a matrix however numpy stores it
+    layout = case.get("layout", "c")
+    if layout == "fortran":
+        Ain = np.asfortranarray(A)
+    elif layout == "transposed-view":
+        Ain = np.ascontiguousarray(A.T).T
+    elif layout == "strided-view":
+        big = np.zeros((2 * A.shape[0], 2 * A.shape[1]), dtype=complex); big[::2, ::2] = A; Ain = big[::2, ::2]
+    elif layout == "reversed-view":
+        Ain = np.ascontiguousarray(A[::-1, ::-1])[::-1, ::-1]
+    elif layout == "real-dtype" and not np.iscomplexobj(A.real + 0) and not A.imag.any():
+        Ain = A.real.astype(np.int64) if case.get("int_dtype") else A.real.copy()
+    else:
+        Ain = A.copy()
+    w = matrix_decomposition(Ain)
     scale = 2 ** n
     def ex(z):
         z = complex(z) * scale
@@ -124,7 +138,8 @@ def main():
     for _ in range(400 if ck.quick else 3000):
         n = ck.rng.choice([1, 2, 3] + ([4] if ck.rng.random() < 0.5 else []) + ([5] if ck.rng.random() < 0.06 else []) + ([5, 6] if (nmax == 6 and ck.rng.random() < 0.1) else []))
         kind, m = gen_matrix(ck.rng, n)
-        c = {"op": "decomp", "n": n, "matrix": m, "kind": kind, "strings": all_pstr(n) if n <= 3 else []}
+        c = {"op": "decomp", "n": n, "matrix": m, "kind": kind, "strings": all_pstr(n) if n <= 3 else [],
+             "layout": ck.rng.choice(["c", "c", "fortran", "transposed-view", "strided-view", "reversed-view", "real-dtype"]), "int_dtype": ck.rng.random() < 0.5}
         if kind in ("diagonal",) or ck.rng.random() < 0.2:
             c["diag"] = [m[i][i] for i in range(2 ** n)] if kind == "diagonal" else [[ck.rng.randint(-4, 4), ck.rng.randint(-4, 4)] for _ in range(2 ** n)]
         if kind == "pauli":
@@ -140,6 +155,7 @@ def main():
     stats = {"kinds": {}}
     for i, (c, r) in enumerate(zip(cases, res)):
         stats["kinds"][c["kind"]] = stats["kinds"].get(c["kind"], 0) + 1
+        stats.setdefault("layouts", {})[c["layout"]] = stats.setdefault("layouts", {}).get(c["layout"], 0) + 1
         if "exc" in r:
             ck.fail(None, "matrix_decomposition raised %s on a %s %dx%d matrix" % (r["exc"], c["kind"], 2 ** c["n"], 2 ** c["n"]), {"case": c, "result": r}); continue
         bad = []
@@ -166,7 +182,7 @@ def main():
         if sum(1 for a, b in W if (a, b) != (0.0, 0.0)) >= 2:
             nt.add(mat_wire(c["matrix"]))
         if bad:
-            ck.fail(None, "%s matrix n=%d: %s" % (c["kind"], c["n"], "; ".join(bad)), {"case": {k: v for k, v in c.items() if k != "strings"}, "differences": bad})
+            ck.fail(None, "%s matrix n=%d (array layout %s): %s" % (c["kind"], c["n"], c["layout"], "; ".join(bad)), {"case": {k: v for k, v in c.items() if k != "strings"}, "differences": bad})
     # Pauli-weight table and index convention
     items = [[n, pos] for n in range(0, (5 if ck.quick else 7)) for pos in (0, 1, 2, 3)]
     wr = ck.impl("c13", [{"op": "weights", "items": items}])[0]["w"]
